@@ -91,15 +91,24 @@ CHECKS = {
         text="The index machinery (AutoIndexManager counters/threshold/reset, MemoryIndex per-etag cache, choice "
              "between the naive and the index-based iteration in Store.iter_with_filter) is modelled as a state "
              "machine parametric in the two evaluators and proved transparent for every history of queries and writes "
-             "and every threshold, by induction, under the explicit proviso that check_from_indexes agrees with check "
-             "on the files at hand; full_statement_is_false shows the proviso cannot be dropped (recorded finding "
-             "KF-C10-multi-component). Every query answer of generated histories (each filter repeated past the "
-             "threshold, filters interleaved, writes in between, thresholds 0/1/5) is compared with the Lean model of "
-             "direct evaluation on the current contents, at the store API and through REPORT on both front ends.",
-        note="partial: the agreement of the two evaluators (match_indexes family vs match) is hypothesis AgreeOn, "
-             "validated by correspondence, not proved; the naive evaluator's model is the one proved against RFC 4791 "
-             "in C11; unparseable stored files are not generated.",
-        tech="Lean 4 state-machine proof (history induction) under an evaluator-agreement proviso + differential monitor",
+             "and every threshold, by induction, provided check_from_indexes agrees with check on the files at hand "
+             "(AgreeOn). For iCalendar that proviso is discharged by proof: Ical/Index.lean models index_keys, "
+             "_get_index, create_subindexes and the match_indexes family, and check_from_indexes_eq_check proves the "
+             "index path equal to the direct one for every well-formed filter (three levels, time ranges, prop/param "
+             "filters, text-matches, is-not-defined) on every calendar without repeated components/properties per "
+             "name; index_transparent_ical / no_history_is_observable_ical are then unconditional on index state, "
+             "history and threshold. nonsimple_paths_differ / full_statement_is_false show the class cannot be "
+             "widened to repeated components (recorded findings KF-C10-*). Ties: every query answer of generated "
+             "histories (each filter repeated past the threshold, filters interleaved, writes in between, thresholds "
+             "0/1/5) is compared with the Lean model of direct evaluation, at the store API and through REPORT on both "
+             "front ends; the index-side model is compared with the real index_keys/get_indexes/check_from_indexes on "
+             "generated inputs (idxtie.py), and the two real paths with each other on the proved class.",
+        note="partial: outside the class Simple (several components of one type, repeated properties) the two paths "
+             "differ — recorded findings; the text round trip through the index (escape by icalendar, un-escape by "
+             "xandikos) and vobject/icalendar parsing are parameters validated by correspondence; unparseable stored "
+             "files are not generated.",
+        tech="Lean 4 state-machine proof (history induction) + proved evaluator agreement on a structural class + "
+             "differential monitors",
         ref="5/C10"),
     "C11": dict(
         text="The four RFC 4791 section 9.9 functions (apply_time_range_vevent/vtodo/vjournal/vfreebusy) are TRANSLATED "
